@@ -1,6 +1,6 @@
 (* Check.v — the correspondence check: the executable model is run on the states observed in the Go
    implementation (one snapshot after every step of Layout) and compared with the next observed state. *)
-From Autog Require Export Contracts CrossCount.
+From Autog Require Export Contracts CrossCount Wmedian Pipeline.
 From Coq Require Import NArith.
 Local Open Scope Q_scope.
 
@@ -168,3 +168,46 @@ Definition check_case (c : tcase) : list nat :=
 
 Definition check_cases (cs : list (nat * tcase)) : list (nat * list nat) :=
   flat_map (fun p => match check_case (snd p) with [] => [] | l => [(fst p, l)] end) cs.
+
+(* deep check of the ordering phase: the functional model of the weighted-median heuristic (Model/Wmedian.v),
+   run on the observed state before phase 3, must reproduce the observed state after it — the order of every
+   layer, every position — and the crossing number sent to the monitor (codes 15xx, 1500 for the number) *)
+Definition check_wmedian (c : tcase) : list nat :=
+  let ncomp := length (filter (fun s => Nat.eqb (s_label s) 1) (c_snaps c)) in
+  let r := fold_left (fun (acc : list nat * list Z) i =>
+             match find_snap c 4 (Z.of_nat i), find_snap c 5 (Z.of_nat i) with
+             | Some before, Some after =>
+                 match phase3_wmedian 24 before with
+                 | Ok (g, ox) => (fst acc ++ cmp_graph 15 g after,
+                                  snd acc ++ match ox with Some x => [x] | None => [] end)
+                 | Err (ErrFuel k) => (fst acc ++ [1598%nat; (4000 + k)%nat], snd acc)
+                 | Err _ => (fst acc ++ [1599%nat], snd acc)
+                 end
+             | _, _ => acc
+             end) (iota 0 ncomp) ([], []) in
+  fst r ++ (if list_eqb Z.eqb (snd r) (c_crossings c) then [] else [1500%nat]).
+
+(* end to end: Layout as one function of the raw input (Model/Pipeline.v) reproduces the observed output, without
+   looking at any intermediate state (code 1600; 1601 identifiers, 1602 nodes, 1603 edges, 1604 crossing numbers).
+   Helper nodes are compared by coordinates only: their arena index depends on how components share the arena. *)
+Definition onode_eqb_e2e (nreal : nat) (a b : onode) : bool :=
+  (Nat.eqb (on_id a) (on_id b) || (Nat.leb nreal (on_id a) && Nat.leb nreal (on_id b)))
+  && Qeq_bool (on_x a) (on_x b) && Qeq_bool (on_y a) (on_y b) && Qeq_bool (on_w a) (on_w b) && Qeq_bool (on_h a) (on_h b).
+
+Definition check_e2e (c : tcase) : list nat :=
+  match o_p4 (c_opts c), o_p5 (c_opts c) with
+  | OtherPositioner, _ | _, OtherRouting => []          (* Brandes-Koepf / splines: not modelled functionally *)
+  | _, _ =>
+      match layout ident ieqb (c_opts c) (c_fixed c) (c_sizes c) (c_edges c) with
+      | Ok (ids, (ns, es, xs)) =>
+          (if list_eqb ieqb ids (c_ids c) then [] else [1601%nat])
+          ++ (if forall2b (onode_eqb_e2e (length ids)) ns (c_out_nodes c) then [] else [1602%nat])
+          ++ (if forall2b oedge_eqb es (c_out_edges c) then [] else [1603%nat])
+          ++ (if list_eqb Z.eqb xs (c_crossings c) then [] else [1604%nat])
+      | Err (ErrFuel k) => [1698%nat; (4000 + k)%nat]
+      | Err _ => [1699%nat]
+      end
+  end.
+
+Definition check_cases_deep (cs : list (nat * tcase)) : list (nat * list nat) :=
+  flat_map (fun p => match check_case (snd p) ++ check_wmedian (snd p) ++ check_e2e (snd p) with [] => [] | l => [(fst p, l)] end) cs.
